@@ -1260,7 +1260,11 @@ func (m *MapPollard) GetHash(pos uint64) Hash {
 	m.rwLock.RLock()
 	defer m.rwLock.RUnlock()
 
-	if m.TotalRows != TreeRows(m.NumLeaves) {
+	// Only translate the positions that exist in the forest. Positions outside
+	// of it can't be translated and may end up pointing to an unrelated node.
+	if m.TotalRows != TreeRows(m.NumLeaves) &&
+		inForest(pos, m.NumLeaves, TreeRows(m.NumLeaves)) {
+
 		pos = translatePos(pos, TreeRows(m.NumLeaves), m.TotalRows)
 	}
 	leaf, _ := m.Nodes.Get(pos)
